@@ -69,6 +69,33 @@ let () =
              done
            end;
            print_endline (Buffer.contents b))
+      end else if toks.(0) = "SWEEP" then begin
+        let id = toks.(1) in
+        let n = int_of_string toks.(2) in
+        let a = Array.map int_of_string (Array.sub toks 3 (Array.length toks - 3)) in
+        let boxes = List.init n (fun i -> { b2minx = z_of_int a.(4*i); b2miny = z_of_int a.(4*i+1);
+                                            b2maxx = z_of_int a.(4*i+2); b2maxy = z_of_int a.(4*i+3) }) in
+        let res = sweep_pairs (fun _ _ -> false) boxes in
+        let b = Buffer.create 256 in
+        Buffer.add_string b ("S " ^ id);
+        List.iter (fun (x, y) -> Buffer.add_string b (Printf.sprintf " %d %d" (int_of_z x) (int_of_z y))) res;
+        print_endline (Buffer.contents b)
+      end else if toks.(0) = "KD" then begin
+        let id = toks.(1) in
+        let n = int_of_string toks.(2) and m = int_of_string toks.(3) in
+        let a = Array.map int_of_string (Array.sub toks 4 (Array.length toks - 4)) in
+        let pts = List.init n (fun i -> { px = z_of_int a.(2*i); py = z_of_int a.(2*i+1); pidx = z_of_int i }) in
+        let tree = build_two_d_tree pts in
+        let b = Buffer.create 256 in
+        Buffer.add_string b ("K " ^ id ^ " tree");
+        List.iter (fun p -> Buffer.add_string b (Printf.sprintf " %d" (int_of_z p.pidx))) tree;
+        for q = 0 to m - 1 do
+          let o = 2 * n + 4 * q in
+          let r = { rminx = z_of_int a.(o); rminy = z_of_int a.(o+1); rmaxx = z_of_int a.(o+2); rmaxy = z_of_int a.(o+3) } in
+          Buffer.add_string b " q";
+          List.iter (fun p -> Buffer.add_string b (Printf.sprintf " %d" (int_of_z p.pidx))) (query_two_d_tree tree r)
+        done;
+        print_endline (Buffer.contents b)
       end else if toks.(0) = "CERT" then begin
         let id = toks.(1) in
         let n = int_of_string toks.(2) in
